@@ -224,7 +224,7 @@ func (o *OracleC11) maybeProbe() {
 	var tv byte
 	kind := ""
 	redeliver := false
-	switch tape.Draw(SProbe, 11) {
+	switch tape.Draw(SProbe, 12) {
 	case 0:
 		kind = "index_outside_validator_list"
 		p = mk(types[tape.Draw(SProbe, uint64(len(types)))], h, v, nv+int(tape.Draw(SProbe, 3)))
@@ -334,6 +334,33 @@ func (o *OracleC11) maybeProbe() {
 		}
 		kind = "response_naming_another_proposal"
 		p = &Payload{T: dbft.PrepareResponseType, H: h, V: v, Idx: uint16(free[tape.Draw(SProbe, uint64(len(free)))]), Body: &PrepResp{Prep: rh()}, sender: -1}
+		p.sign(s.kr.Priv(s.sc.ValsAt(h)[p.Idx]))
+	case 9:
+		// a vote of the current view that the node can check at once (it holds the header or
+		// the pre-block it has to verify against) and that does not verify is dropped: nothing
+		// of it stays, whatever phase the node is in (also after the pre-block was processed)
+		vs := d.VerifState()
+		t := dbft.CommitType
+		var b any = &CommitBody{Sig: make([]byte, 64)}
+		tab := d.CommitPayloads
+		switch {
+		case amev && vs.HasPreBlock && tape.Chance(SProbe, 2, 3):
+			t, b, tab = dbft.PreCommitType, &PreCommitBody{D: make([]byte, 64)}, d.PreCommitPayloads
+		case vs.HasHeader:
+		default:
+			return
+		}
+		var free []int
+		for i := 0; i < nv; i++ {
+			if i != d.MyIndex && tab[i] == nil {
+				free = append(free, i)
+			}
+		}
+		if len(free) == 0 {
+			return
+		}
+		kind = "vote_that_does_not_verify"
+		p = &Payload{T: t, H: h, V: v, Idx: uint16(free[tape.Draw(SProbe, uint64(len(free)))]), Body: b, sender: -1}
 		p.sign(s.kr.Priv(s.sc.ValsAt(h)[p.Idx]))
 	default:
 		// redelivery of a payload the node currently holds
